@@ -83,6 +83,22 @@ func execRTPSeq(data []byte) string {
 	var parts []string
 	cur := fw.Exact(data)
 	pk := jt1078.NewPacket()
+	// the way a stream reader uses one Packet: what has arrived so far is decoded from the front, ends in "body too short"
+	// (or "head too short") somewhere, and is decoded again when more has arrived. The earlier attempts on prefixes of the
+	// stream must leave nothing behind in the Packet: only the last pass, over the whole stream, is reported.
+	for _, cut := range []int{len(data) / 3, 2 * len(data) / 3, len(data) - 1} {
+		if cut <= 0 || cut >= len(data) {
+			continue
+		}
+		pre := fw.Exact(data[:cut])
+		for steps := 0; steps < 100000; steps++ {
+			rest, err := pk.Decode(pre)
+			if err != nil || len(rest) == 0 {
+				break
+			}
+			pre = rest
+		}
+	}
 	for steps := 0; steps < 100000; steps++ {
 		rest, err := pk.Decode(cur)
 		if err != nil {
